@@ -320,6 +320,8 @@ def obligations(tier, seed):
     to = 300 if tier == 'thorough' else 120
     specs.append(crosshair_runner.spec(MOD, CH, 'dimension_value_is_offered_or_refused', 'dimension-value/any-string-up-to-5-chars', timeout=to, cost=to,
                                        functions=['TileLayer.checked_dimensions']))
+    specs.append(crosshair_runner.spec(MOD, CH, 'restful_unknown_dimension_is_refused', 'dimension-value/restful-unknown-dimension-is-refused', timeout=to, cost=to,
+                                       functions=['WMTSRestServer.check_request_dimensions']))
     specs.append(crosshair_runner.spec(MOD, CH, 'twin_dimension_value', 'twin/dimension-value', kind='witness', timeout=60))
     specs.append(crosshair_runner.spec(MOD, CH, 'dimension_value_is_offered_or_refused', 'canary/dimension value accepted by prefix', kind='canary', timeout=120, cost=30,
                                        patches={'mapproxy.service.tile': [["            if value in values:\n                dimensions[dimension] = value\n",
